@@ -134,6 +134,24 @@ def run_batch(a):
     return out
 
 
+def run_graph_names(a):
+    """(a) on whole projects: the same type-dependency graph (roots incl. event payloads, channels, nested event-only types) must declare
+    the same set of project types and of parameter objects in both modes"""
+    cli, idx, seed = a
+    rnd = random.Random(seed)
+    files, expected, info = c07.gen_case(rnd, idx)
+    names = {}
+    for mode in ("none", "zod"):
+        g = proj.generate(cli, files, mode=mode, tag="c10g")
+        try:
+            if g.run.rc != 0 or g.output.mods.get("types.ts") is None or g.output.mods["types.ts"].errors:
+                return {"blocked": True}
+            names[mode] = sorted(c07.declared(g.output, mode))
+        finally:
+            g.cleanup()
+    return {"none": names["none"], "zod": names["zod"], "files": [[p, t] for p, t in files], "n": info["n"]}
+
+
 def run(tier):
     v = Verdict("C10", "exploration", tier)
     cli = common.build_cli()
@@ -208,6 +226,18 @@ def run(tier):
             else:
                 sig = "C10 value-%s %s" % (kind, rg.skeleton(t))
             v.violation(sig, "parameter of Rust type `%s`: the value %s that serde produces is %s by the parameter schema (%s)" % (rg.rust(t), js, kind, why), wit(i))
+    gjobs = [(cli, i, common.seed() * 100003 + i) for i in range(200 if tier == "quick" else 3000)]
+    for (job, r) in zip(gjobs, common.pmap(run_graph_names, gjobs, chunksize=4)):
+        if "blocked" in r:
+            v.blocked += 1
+            v.evaluations += 1
+            continue
+        v.case(("graph", job[2]), nontrivial=r["n"] >= 2)
+        v.count("whole_project_name_set_comparisons")
+        if r["none"] != r["zod"]:
+            v.violation("C10 type-name-sets-differ project only-%s" % ("plain" if set(r["none"]) - set(r["zod"]) else "zod"),
+                        "plain mode declares %s, Zod mode declares %s" % (sorted(set(r["none"]) - set(r["zod"])), sorted(set(r["zod"]) - set(r["none"]))),
+                        {"files": r["files"], "mode": "both"})
     v.extra["serde_sample_types"] = len(sample)
     rule = ("a case is one Rust type expression placed at the field and parameter sites of a project generated in both modes; non-trivial = "
             "constructor depth >= 1; distinct by rendered type. Chains exhaustive to the stated depth plus seeded deeper trees; value-level check "
